@@ -1,7 +1,7 @@
 /-
 C07 — a proximal operator returns the minimiser of f(z) + ‖z − x‖²/(2σ).
-Property theorems only (helper lemmas live in `Lemmas/Prox.lean`).  The definitions the
-theorems talk about are the executable ones of `Model/Prox.lean`, i.e. the same functions
+Property theorems only (helper lemmas live in `Lemmas/Prox.lean`).  The definitions that the
+statements talk about are the executable ones of `Model/Prox.lean`, i.e. the same functions
 the driver runs against `/repo` on every check.
 -/
 import OdlModel.Model.Prox
@@ -931,6 +931,137 @@ theorem C07.huber_vi_gamma0 (sig x z : K) (hs : 0 < sig) :
       rw [this]
       have e : x - sig * -1 = x + sig := by ring
       rw [e, abs_of_neg (by linarith)]; nlinarith
+
+/-! ### laws of the executed evaluator: separable sums, weighted sum constraint, firm
+non-expansiveness and idempotence on lists -/
+
+/-- `SeparableSum.proximal` / `combine_proximals` as executed by `Fn.prox`, float step: for ALL
+sub-trees `f`, `rest` and all lists, the `.sep` node splits weights and point at the length of the
+first summand and concatenates the two proximal points. -/
+theorem C07.sep_prox_append_scalar (E : Env K) (f rest : Fn K) (wa wb xa xb : List K) (s : K)
+    (hw : wa.length = xa.length) :
+    Fn.prox E (.sep xa.length f rest) (wa ++ wb) (.sc s) (xa ++ xb)
+      = f.prox E wa (.sc s) xa ++ rest.prox E wb (.sc s) xb := by
+  simp only [Fn.prox]
+  rw [← hw, List.take_left, List.drop_left, hw, List.take_left, List.drop_left]
+
+/-- The same with a LIST of steps (one float per summand, the documented per-component steps):
+the head of the list goes to the first summand as a float, the tail to the remaining sum. -/
+theorem C07.sep_prox_append_list (E : Env K) (f rest : Fn K) (wa wb xa xb : List K) (s : K)
+    (ss : List K) (hw : wa.length = xa.length) :
+    Fn.prox E (.sep xa.length f rest) (wa ++ wb) (.vec (s :: ss)) (xa ++ xb)
+      = f.prox E wa (.sc s) xa ++ rest.prox E wb (.vec ss) xb := by
+  simp only [Fn.prox, List.headD_cons, List.tail_cons]
+  rw [← hw, List.take_left, List.drop_left, hw, List.take_left, List.drop_left]
+
+/-- `IndicatorSumConstraint.proximal` on an ARRAY-weighted space as executed by `Fn.prox`
+(`.sumc true`), every non-empty input with positive weights: the result has the prescribed sum
+and satisfies the projection inequality in the weighted inner product `Σ w_i a_i b_i`. -/
+theorem C07.sumc_weighted_list_projection (E : Env K) (sv : K) (w x z : List K) (sig : Sig K)
+    (hx : x ≠ []) (hlen : w.length = x.length) (hw : ∀ i < x.length, 0 < w.getD i 0)
+    (hz : ∑ i ∈ range x.length, z.getD i 0 = sv) :
+    let p := Fn.prox E (.sumc true sv) w sig x
+    p.length = x.length ∧ ∑ i ∈ range x.length, p.getD i 0 = sv ∧
+    ∑ i ∈ range x.length,
+      w.getD i 0 * ((x.getD i 0 - p.getD i 0) * (z.getD i 0 - p.getD i 0)) ≤ 0 := by
+  intro p
+  have hne : (range x.length).Nonempty := by
+    rw [Finset.nonempty_range_iff]; exact (List.length_pos_iff.mpr hx).ne'
+  have key := C07.sumc_weighted_vi (range x.length) hne (fun i => w.getD i 0)
+    (fun i => x.getD i 0) (fun i => z.getD i 0) sv (fun i hi => hw i (mem_range.mp hi)) hz
+  have hsx : sumK x = ∑ i ∈ range x.length, x.getD i 0 := by
+    rw [sumK_eq_sum]; have := sum_range_getD x id; simpa using this.symm
+  have hsw : sumK (w.map (1 / ·)) = ∑ i ∈ range x.length, 1 / w.getD i 0 := by
+    rw [sumK_eq_sum, ← hlen]; exact (sum_range_getD w (1 / ·)).symm
+  have hp : p = List.zipWith (fun wi xi => xi + (sv - sumK x) / sumK (w.map (1 / ·)) / wi) w x := rfl
+  have hpi : ∀ i < x.length, p.getD i 0 = x.getD i 0
+      + (sv - ∑ i ∈ range x.length, x.getD i 0) / (∑ i ∈ range x.length, 1 / w.getD i 0)
+        / w.getD i 0 := by
+    intro i hi
+    rw [hp, zipWith_getD' _ _ _ i (by rw [hlen]; exact hi) hi, hsx, hsw]
+  refine ⟨by rw [hp]; simp [hlen], ?_, ?_⟩
+  · rw [Finset.sum_congr rfl (fun i hi => hpi i (mem_range.mp hi))]; exact key.1
+  · rw [Finset.sum_congr rfl (fun i hi => by rw [hpi i (mem_range.mp hi)])]; exact key.2
+
+/-- Firm non-expansiveness of the EXECUTED L1 proximal on lists (any length, data term, weights
+`≥ 0`, scalar or point-wise positive steps): `Σ w_i (p_i − q_i)²/σ_i ≤ Σ w_i (x_i − y_i)(p_i − q_i)/σ_i`
+for `p = prox(x)`, `q = prox(y)` — in particular the map is 1-Lipschitz in the weighted norm. -/
+theorem C07.l1_list_firmly_nonexpansive (E : Env K) (lam : K) (g : Option (List K))
+    (w x y : List K) (sig : Sig K) (hl : 0 < lam) (hxy : y.length = x.length)
+    (hw : ∀ i < x.length, 0 ≤ w.getD i 0) (hs : ∀ i < x.length, 0 < sig.at i) :
+    let p := Fn.prox E (.l1 lam g) w sig x
+    let q := Fn.prox E (.l1 lam g) w sig y
+    ∑ i ∈ range x.length, w.getD i 0 * ((p.getD i 0 - q.getD i 0) ^ 2 / sig.at i)
+      ≤ ∑ i ∈ range x.length,
+          w.getD i 0 * ((x.getD i 0 - y.getD i 0) * (p.getD i 0 - q.getD i 0) / sig.at i) := by
+  intro p q
+  have hp : ∀ i < x.length, p.getD i 0 = softCode (sig.at i * lam) (x.getD i 0) (gAt g i) := by
+    intro i hi
+    show (idxMap x fun i xi => softCode (sig.at i * lam) xi (gAt g i)).getD i 0 = _
+    rw [idxMap_getD _ _ _ _ hi]
+  have hq : ∀ i < x.length, q.getD i 0 = softCode (sig.at i * lam) (y.getD i 0) (gAt g i) := by
+    intro i hi
+    show (idxMap y fun i xi => softCode (sig.at i * lam) xi (gAt g i)).getD i 0 = _
+    rw [idxMap_getD _ _ _ _ (by rw [hxy]; exact hi)]
+  apply Finset.sum_le_sum
+  intro i hi
+  have hi' := mem_range.mp hi
+  apply mul_le_mul_of_nonneg_left _ (hw i hi')
+  have hsi := hs i hi'
+  have hsl : 0 < sig.at i * lam := mul_pos hsi hl
+  rw [hp i hi', hq i hi']
+  set a := softCode (sig.at i * lam) (x.getD i 0) (gAt g i)
+  set b := softCode (sig.at i * lam) (y.getD i 0) (gAt g i)
+  have h1 := C07.soft_vi (sig.at i * lam) (x.getD i 0) (gAt g i) b hsl
+  have h2 := C07.soft_vi (sig.at i * lam) (y.getD i 0) (gAt g i) a hsl
+  rw [div_le_div_iff_of_pos_right hsi]
+  nlinarith
+
+/-- The EXECUTED box projection is idempotent on every list (bounds entry-wise, absent bounds
+allowed, `lower ≤ upper` where both are given). -/
+theorem C07.box_list_idempotent (E : Env K) (lo hi : Option (List K)) (w x : List K) (sig : Sig K)
+    (hlh : ∀ i < x.length, ∀ l u, lo.map (·.getD i 0) = some l → hi.map (·.getD i 0) = some u → l ≤ u) :
+    let p := Fn.prox E (.box lo hi) w sig x
+    ∀ i < x.length, (Fn.prox E (.box lo hi) w sig p).getD i 0 = p.getD i 0 := by
+  intro p i hi'
+  have hp : p = idxMap x fun i xi =>
+      boxCode (lo.map (·.getD i 0)) (hi.map (·.getD i 0)) xi := rfl
+  have hlenp : p.length = x.length := by rw [hp, idxMap_length]
+  have hpi : p.getD i 0 = boxCode (lo.map (·.getD i 0)) (hi.map (·.getD i 0)) (x.getD i 0) := by
+    rw [hp, idxMap_getD _ _ _ _ hi']
+  show (idxMap p fun i xi => boxCode (lo.map (·.getD i 0)) (hi.map (·.getD i 0)) xi).getD i 0 = _
+  rw [idxMap_getD _ _ _ _ (by rw [hlenp]; exact hi')]
+  generalize hL : lo.map (·.getD i 0) = L at *
+  generalize hH : hi.map (·.getD i 0) = H at *
+  rcases L with _ | l <;> rcases H with _ | u <;>
+    simp only [boxCode, maxK_eq, minK_eq] at hpi ⊢
+  · rw [hpi]; exact min_eq_left (min_le_right _ _)
+  · rw [hpi]; exact max_eq_left (le_max_right _ _)
+  · have hlu : l ≤ u := hlh i hi' l u hL hH
+    have h1 : l ≤ p.getD i 0 := by rw [hpi]; exact le_min (le_max_right _ _) hlu
+    have h2 : p.getD i 0 ≤ u := by rw [hpi]; exact min_le_right _ _
+    rw [max_eq_left h1, min_eq_left h2]
+
+/-- Non-vacuity of the final-round theorems on concrete lists. -/
+example : Fn.prox (⟨id, 0⟩ : Env ℚ) (.sep 2 (.l1 1 none) (.sep 1 (.l2sq 1 none) .nil)) ([1, 1] ++ [1])
+    (.vec [1, 1 / 2]) ([3, 1 / 2] ++ [-1])
+    = Fn.prox (⟨id, 0⟩ : Env ℚ) (.l1 1 none) [1, 1] (.sc 1) [3, 1 / 2]
+      ++ Fn.prox (⟨id, 0⟩ : Env ℚ) (.sep 1 (.l2sq 1 none) .nil) [1] (.vec [1 / 2]) [-1] :=
+  C07.sep_prox_append_list (⟨id, 0⟩ : Env ℚ) (.l1 1 none) (.sep 1 (.l2sq 1 none) .nil)
+    [1, 1] [1] [3, 1 / 2] [-1] 1 [1 / 2] rfl
+
+example : (Fn.prox (⟨id, 0⟩ : Env ℚ) (.sumc true 1) [1, 2] (.sc 1) [0, 0]).length = 2 :=
+  (C07.sumc_weighted_list_projection (⟨id, 0⟩ : Env ℚ) 1 [1, 2] [0, 0] [2 / 3, 1 / 3] (.sc 1)
+    (by simp) rfl (by intro i hi; simp at hi; interval_cases i <;> simp)
+    (by simp [Finset.sum_range_succ]; norm_num)).1
+
+example := C07.l1_list_firmly_nonexpansive (⟨id, 0⟩ : Env ℚ) 1 (some [1 / 4, 0]) [1, 2] [3, -1]
+  [1 / 2, 2] (.vec [1 / 2, 2]) (by norm_num) rfl
+  (by intro i hi; simp at hi; interval_cases i <;> simp)
+  (by intro i hi; simp at hi; interval_cases i <;> simp [Sig.at])
+
+example := C07.box_list_idempotent (⟨id, 0⟩ : Env ℚ) (some [-1, 0]) none [1, 1] [-3, 2] (.sc 1)
+  (by intro i _ l u _ h; simp at h)
 
 /-! Non-vacuity of the lifting theorems on concrete data. -/
 example : ∑ k ∈ Finset.range 3, maxK (uEx k
